@@ -126,16 +126,24 @@ def group_tail(name, tag):
     return ":".join(re.sub(r"@L\d+$", "", p) for p in rest.split(":") if not p.startswith("path"))
 
 
-def check_init(run, m, cls, tag, input_tok):
-    """__init__ stores its arguments; the stored request is a fresh copy T(request) of the input type."""
+def check_init(run, m, cls, tag, input_tok, proto_plus=None):
+    """__init__ stores its arguments; the stored request is a private copy of the caller's request, of the input type: `T(request)` for a proto-plus
+    type, `T()` filled by `CopyFrom(request)` for a plain protobuf type of another package (whose constructor takes no positional argument)."""
     f = find_func(cls, "__init__")
     ok = f is not None
     stores = {}
+    copies = []
     if ok:
         for s in f.body:
             if isinstance(s, ast.Assign) and len(s.targets) == 1 and isinstance(s.targets[0], ast.Attribute) \
                     and isinstance(s.targets[0].value, ast.Name) and s.targets[0].value.id == "self":
                 stores[s.targets[0].attr] = ast.unparse(s.value)
+            elif isinstance(s, ast.Expr) and isinstance(s.value, ast.Call):
+                copies.append(ast.unparse(s.value))
+    if stores.get("_request") == f"{input_tok}()" and copies == ["self._request.CopyFrom(request)"] and proto_plus is False:
+        stores["_request"] = f"{input_tok}(request)"          # the plain-protobuf spelling of the same private copy
+    elif copies or (stores.get("_request") == f"{input_tok}(request)" and proto_plus is False):
+        stores["_request"] = f"{stores.get('_request')} / {copies} (proto-plus input type: {proto_plus})"
     want = {"_method": "method", "_request": f"{input_tok}(request)", "_response": "response", "_retry": "retry", "_timeout": "timeout",
             "_metadata": "metadata"}
     for k, v in want.items():
@@ -213,7 +221,8 @@ def run(run: Run):
                 continue
             seen_classes += 1
             m = model(field_tok, is_map)
-            check_init(run, m, cls, tag, input_tok)
+            pp = var.d(("bool", mpath + ".input.ident.is_proto_plus_type"))
+            check_init(run, m, cls, tag, input_tok, None if pp is None else bool(pp))
             pages = find_func(cls, "pages")
             run.table(f"{tag}:pages-present", pages is not None, group="pagers:class-present")
             if pages is not None:
